@@ -2,10 +2,12 @@ import Sonic.Model.Itoa
 import Sonic.Spec.Decimal
 import Sonic.Spec.Rne
 import Sonic.Spec.Shortest
+import Sonic.Spec.Json
 import Sonic.Model.Quote
 import Sonic.Model.Memcmp
 import Sonic.Model.StringDec
 import Sonic.Model.Ftoa
+import Sonic.Model.Number
 
 /-!
 # Line-protocol driver (`sonic_model`)
@@ -37,6 +39,12 @@ def hexOf (bs : List Nat) : String :=
   if bs.isEmpty then "-" else
   let hd (n : Nat) : Char := if n < 10 then Char.ofNat (48 + n) else Char.ofNat (87 + n)
   String.ofList (bs.foldr (fun b acc => hd (b / 16 % 16) :: hd (b % 16) :: acc) [])
+
+def specParseStr (bs : List Nat) : String :=
+  match Sonic.Spec.Json.parse bs with
+  | .ok v => "spec=ok:" ++ v.show
+  | .error .malformed => "spec=malformed"
+  | .error .infinity => "spec=infinity"
 
 /-- pure (stateless) commands implemented in this file -/
 def stepLocal (toks : List String) : String :=
@@ -75,6 +83,11 @@ def stepLocal (toks : List String) : String :=
           s!"chk={if chk then 1 else 0} rt={if rt then 1 else 0}"
       else "bad-op"
     | _, _ => "bad-op"
+  | "parse" :: _ :: hexes | "parse-seq" :: _ :: hexes =>
+    -- spec part only (the literal parser model adds its own prefix when present)
+    match hexes.mapM parseHex with
+    | some texts => if texts.isEmpty then "bad-op" else " | ".intercalate (texts.map specParseStr)
+    | none => "bad-op"
   | ["spec-decimal", n] =>
     match n.toNat? with
     | some v => hexOf (Sonic.Spec.decimal v)
@@ -89,6 +102,8 @@ def step (st : DState) (line : String) : DState × String :=
   let toks := (line.trimAscii.toString.splitOn " ").filter (· ≠ "")
   match toks with
   | "quote" :: _ => (st, Sonic.Model.Quote.runLine st.W toks)
+  | "atof" :: _ | "prim-el" :: _ | "prim-nf" :: _ | "prim-native" :: _ | "prim-str2int" :: _ =>
+    (st, Sonic.Model.Number.runLine toks)
   | "f64toa" :: _ => (st, Sonic.Model.Ftoa.runLine toks)
   | "memcmp" :: _ => (st, Sonic.Model.Memcmp.runLine toks)
   | "parsestr" :: _ => (st, Sonic.Model.StringDec.runLine st.W toks)
